@@ -1,9 +1,11 @@
-SPECIFICATION ASpec
+SPECIFICATION GSpec
 CONSTANTS
-  Threads = {1, 2, 3}
-  MaxCalls = 2
+  Threads = {1, 2}
+  MaxCalls = 8
+  D = 3
+  Rand = FALSE
+CONSTRAINT Emit
 INVARIANT OneOwner
 INVARIANT OwnerIsTheOne
 INVARIANT RefusedOnceCreated
-PROPERTY OwnerNeverReset
 CHECK_DEADLOCK FALSE
